@@ -1,5 +1,5 @@
 #!/bin/bash
 # lb.sh <Module> : build one Lean module, show only errors/warnings of that module's file
-cd /verif/lean
+cd /verif/lean; exec 9>/verif/.build/locks/lean.lock; flock 9
 f=$(echo "$1" | sed 's#\.#/#g').lean
 lake build "$1" 2>&1 | grep -A12 -E "^(error|warning): $f|error: Lean exited|Build completed|build failed" | grep -v "^Note: This linter" | head -${2:-80}
